@@ -104,10 +104,11 @@ def rt_unit(kind, version):
     def body(V):
         I, st = V.I, V.st
         # "1atom": the smallest non-empty object (keeps a change that branches on every stored value within the exploration budget)
-        size = V.choose(["2atoms", "empty", "1atom"], "size")
-        k, bonds = (2, ((1, 0),)) if size == "2atoms" else ((1, ()) if size == "1atom" else (0, ()))
+        # "parallel-bonds": two bonds between the same pair of atoms (append_bond allows them; both must come back, in order)
+        size = V.choose(["2atoms", "empty", "1atom", "parallel-bonds"], "size")
+        k, bonds = {"2atoms": (2, ((1, 0),)), "1atom": (1, ()), "empty": (0, ()), "parallel-bonds": (2, ((1, 0), (0, 1)))}[size]
         if ens:
-            nc = V.choose([2, 1], "nc") if size == "2atoms" else (1 if size == "1atom" else 0)
+            nc = V.choose([2, 1], "nc") if size == "2atoms" else (1 if size in ("1atom", "parallel-bonds") else 0)
             src = M.mk_ens(V, nc, k, bonds=bonds, name="s")
             for i, a in enumerate(src.fields["_atoms"].items):
                 src.fields["_atoms"].items[i] = M.mk_atom(V, f"s_a{i}", parent=src, full=True, label=M.opt_str(V, f"s_a{i}_label"))
